@@ -18,6 +18,18 @@ claimed = {
  "C07": dict(text="Deductive proof (SOUND and COMPLETE) that Add, Sub, Mul, MulAdd, Reduce, ReduceWithMaxBits, Inverse equal the Goldilocks field specification for all canonical operands, that the non-reducing variants are exact over the integers under their no-wrap precondition, and that the four hint functions compute the quotient/remainder/limbs/inverse their contracts state.",
              note=TRUST + " gnark-crypto's Element.Inverse is an assumed contract (x*inv = 1 mod p, inverse of 0 is 0).",
              technique="contracts + VC generation over go/ssa + SMT", design="§4 C07"),
+ "C03": dict(text="Deductive proof (SOUND mode, every witness) on the real CircuitFixed.Define that, whenever Define returns without error, the sixteen plonky2 public inputs are each below 2^32, each of the four public values equals the big-endian packing of its four limbs over the integers (no wrap in the BN254 field), and is below 2^128; injectivity of the packing is then linear arithmetic.",
+             note=TRUST + " VerifierChip.Verify is used through a thin contract (it is not needed for this statement). The Solidity side (secondHash truncation) is outside Go and not covered.",
+             technique="contracts + VC generation over go/ssa + SMT", design="§4 C03"),
+ "C04": dict(text="The two wrapper circuits are verified as gnark circuit roots: their fields are classified from the struct tags of the real types (public / build-time constant / prover-chosen), and the postcondition key-pinned demands that every leaf of the verifier key is a constant, a public input, or constrained equal to a term over such values. On this tree the obligation fails for both circuits; this is the recorded known finding F4 (replayed on the real circuit by findings/F4/run.sh), so the check prints KNOWN-FINDING and exits 0; any other failing obligation is a violation.",
+             note=TRUST + " 'pinned' is decided syntactically over the path condition (equalities with terms free of secret inputs); determinedness through the Fiat-Shamir hash is not considered pinning.",
+             technique="contracts on circuit roots + tag classification + syntactic determinedness check; known finding by obligation name", design="§4 C04"),
+ "C08": dict(text="Deductive proof (SOUND and COMPLETE) that every GF(p^2) gadget and every degree-2-algebra gadget returns the mathematically defined canonical result: add, sub, mul, scalar mul, mul-add, sub-mul, zero test, Lookup/Lookup2 selection, inversion and division (zero rejected; product with the argument is 1 whenever the norm is invertible), exponentiation (= plonky2's exp_u64 square-and-multiply recursion), ReduceWithPowers (= Horner recursion, unbounded length), InnerProductExtension (= exact accumulated sum, up to 256 pairs), the four algebra operations and PartialInterpolateExtAlgebra (= plonky2's fold, unbounded length). Loops are cut at inductive invariants over recursive specification functions.",
+             note=TRUST + " Not proved: N(a) != 0 for every a != 0 (7 is a quadratic non-residue mod p) - the inverse postcondition is stated under hasInv == 1; a^e = pow_sm(a,e) is the definition plonky2 itself uses. Polynomial witness lemmas are decided by govc's exact polynomial normaliser (back end 'poly') or SMT.",
+             technique="contracts + loop invariants + recursive spec functions (define-funs-rec) + SMT / exact polynomial identity check", design="§4 C08"),
+ "C17": dict(text="Deductive proof that rangeCheckProof establishes canonicity of the whole proof view - all seven opening lists, every queried leaf element, every fold evaluation, every final-polynomial coefficient and the proof-of-work witness (13 loops, 3 nested, each with a quantified invariant; list lengths symbolic) - and that VerifierChip.Verify calls it on its own proof argument, for every range-checker type.",
+             note=TRUST + " Verify's other callees are used through thin trusted contracts (they are irrelevant to this statement).",
+             technique="contracts + quantified loop invariants over symbolic slices + SMT", design="§4 C17"),
 }
 
 titles = {}
